@@ -139,7 +139,11 @@ Section Driver.
 
   Fixpoint mpf_loop (lvls : list nat) (st : dstate) : dres :=
     match lvls with
-    | [] => {| r_rval := false; r_status := st_status st; r_sol := None; r_y := None; r_exit := ExitLadderExhausted |}
+    | [] =>
+      (* every precision tried: OPTIMAL / INFEASIBLE left behind without certificate become UNSOLVED *)
+      {| r_rval := false;
+         r_status := if is_opt (st_status st) || is_inf (st_status st) then StUnsolved else st_status st;
+         r_sol := None; r_y := None; r_exit := ExitLadderExhausted |}
     | l :: ls => match mpf_stage l st with inl st' => mpf_loop ls st' | inr r => r end
     end.
 
